@@ -229,9 +229,9 @@ CHUNKS = [(10, 10000)] * 6 + [(1, 4), (2, 2), (3, 100), (1, 1), (5, 40), (10, 10
 class C13(fw.Property):
     id = "C13"
     coq_props = "Props/C13.v"
-    gen_jobs = ["oscore_replay"]
-    model_imports = ["Verif.Gen.oscore_replay", "Verif.Model.C12", "Verif.Model.C13"]
-    quick_budget = 340
+    gen_jobs = ["oscore_replay", "oscore_seqno", "oscore_rwchanged"]
+    model_imports = ["Verif.Gen.oscore_replay", "Verif.Model.C12", "Verif.Model.C13", "Verif.Model.C13Kernel"]
+    quick_budget = 280
     thorough_budget = 4000
     design_ref = "DESIGN.md section 18"
     technique = ("Coq invariant proofs over an executable model of process state + disk state (every event list, every crash point); "
@@ -244,12 +244,16 @@ class C13(fw.Property):
     level_note = ("Trusted: Coq kernel + vm_compute; the hand-written Model/C13.v (validated by the correspondence streams); translator + Lib/Py.v for the replay window code; "
                   "OS contract: os.replace is atomic and fsync makes content durable; crash = BaseException raised in the recording os/tempfile/io wrappers (thorough tier also kills real "
                   "subprocesses with os._exit); I/O errors (as opposed to crashes) and two processes on one directory (lock file) are outside the model; crypto/cbor/filelock stubs.")
-    rule = ("streams: crash_sweep = for chunk settings (10,10000),(1,4),(2,2),(3,100), each of the first store points, victim operation protect/seq/unprotect/stop, a crash after each "
+    rule = ("streams: kernels = the real new_sequence_number / post_seqnoincrease on a FilesystemSecurityContext subclass whose _store is a recording callback (failing when the "
+            "bound to persist reaches a threshold) vs the definitions translated from source (Gen/oscore_seqno.v), and _replay_window_changed vs Gen/oscore_rwchanged.v (4 cases): counters at / around the persisted bound, chunk 0..10000, "
+            "limits 0..10000, 2^40-1 +-2; crash_sweep = for chunk settings (10,10000),(1,4),(2,2),(3,100), each of the first store points, victim operation protect/seq/unprotect/stop, a crash after each "
             "of its file-system effects (0..4, stop 0..5), followed by reload, replays of recorded requests, Echo exchange, second stop/kill/crash and another reload (quick: sampled; "
             "thorough: all); history = random multi-lifetime histories (protect, bulk new_sequence_number aimed at chunk boundaries incl. 10,20,40..10000, fresh/replayed/forged requests, "
             "armed crashes, clean stops, kills, reload while alive, operations on a dead context, random initial sequence.json, window sizes 1,2,8,32,64); replay = accept, stop uncleanly or "
             "cleanly, resend recorded messages; exhaustion = initial next-to-send within 45 of 2^40-1. Non-trivial = at least two lifetimes, two acting operations and one stop/crash; distinct by input.")
-    trusted_base = ["hand-written Model/C13.v (validated by all four correspondence streams: per event output, sequence.json content, number of temp files; final temp files, lock, process fields)",
+    trusted_base = ["translator translate/py2v.py + Lib/Py.v prelude for Gen/oscore_seqno.v (new_sequence_number, post_seqnoincrease, MAX_SEQNO) and Gen/oscore_rwchanged.v (_replay_window_changed; validated by the kernels stream); "
+                    "Props C13_new_sequence_number_is_source / C13_post_seqnoincrease_is_source / C13_replay_window_changed_is_source prove the model's kernels equal to it",
+                    "hand-written Model/C13.v (validated by all four correspondence streams: per event output, sequence.json content, number of temp files; final temp files, lock, process fields)",
                     "translator translate/py2v.py + Lib/Py.v prelude for Gen/oscore_replay.v, and Model/C12.v for the request path (validated by C12 and by the unprotect events here)",
                     "OS contract: os.replace atomic, fsync durable; recording wrappers around aiocoap.oscore.os/tempfile/io/secrets",
                     "harness stubs for cbor2/cryptography(AES-CCM, HKDF)/filelock"]
@@ -265,6 +269,10 @@ class C13(fw.Property):
         for k in range(8 if tier == "quick" else 160):
             r = k % 4
             yield "subprocess_kill", (self.sweep_one(rng) if r == 0 else self.gen_history(rng, "nobig") if r == 1 else self.gen_replay(rng) if r == 2 else self.gen_exhaustion(rng))
+        # the translated kernels (Gen/oscore_seqno.v) against the real methods, _store replaced by a recording callback
+        for flag in (True, False):
+            for fail in (False, True): yield "kernels", {"rw": flag, "fail": fail}
+        for k in range(56 if tier == "quick" else 1500): yield "kernels", self.gen_kernels(rng)
         quota = {"crash_sweep": 0.30, "history": 0.36, "replay": 0.22, "exhaustion": 0.12}
         sweep = None
         for k in range(n):
@@ -277,6 +285,16 @@ class C13(fw.Property):
             elif name == "history": yield name, self.gen_history(rng, tier)
             elif name == "replay": yield name, self.gen_replay(rng)
             else: yield name, self.gen_exhaustion(rng)
+
+    def gen_kernels(self, rng):
+        persisted = rng.choice([0, 0, 10, 30, 70, 1000, MAX_SEQNO - rng.randint(0, 30), MAX_SEQNO, rng.randint(0, 10 ** 6)])
+        ssn = max(0, persisted + rng.choice([0, 0, 0, -1, -2, -9, -10, -11, 1, 2, -rng.randint(0, 40)]))
+        if rng.random() < 0.1: ssn = MAX_SEQNO + rng.choice([-2, -1, 0, 1])
+        chunk = rng.choice([10, 10, 20, 40, 5120, 10000, 1, 2, 3, 0, 7])
+        limit = rng.choice([10000, 10000, 10000, 4, 2, 1, 100, 0, 10])
+        t = rng.choice([None, None, None, persisted, persisted + chunk, persisted + chunk + min(chunk * 2, limit), persisted + rng.randint(0, 60)])
+        ops = [rng.choice(["new", "new", "new", "post"]) for _ in range(rng.randint(1, 30))]
+        return {"t": t, "ssn": ssn, "persisted": persisted, "chunk": chunk, "limit": limit, "ops": ops}
 
     class Builder:
         def __init__(self, rng, size=32, disk=None):
@@ -442,8 +460,42 @@ class C13(fw.Property):
         return b.case()
 
     # ---------------------------------------------------------------- implementation
+    def impl_kernels(self, inp):
+        import aiocoap.oscore as o
+        if "rw" in inp:
+            class Flagged(Exception): pass
+            class W(o.FilesystemSecurityContext):
+                def __init__(self): self.lockfile = None
+                def _store(self):
+                    if self.replay_window_persisted: raise Flagged()
+                    if inp["fail"]: raise Crash()
+            w = W(); w.replay_window_persisted = inp["rw"]
+            try: w._replay_window_changed()
+            except Flagged: return {"rw": "exn:OtherError_14"}
+            except Crash: return {"rw": "exn:OtherError_13"}
+            except Exception as e: return {"rw": "exn:" + type(e).__name__}
+            return {"rw": bool(w.replay_window_persisted)}
+        t = inp["t"]
+        class K(o.FilesystemSecurityContext):
+            def __init__(self): self.lockfile = None; self.stores = []
+            def _store(self):
+                self.stores.append(self.sequence_number_persisted)
+                if t is not None and self.sequence_number_persisted >= t: raise Crash()
+        k = K()
+        k.sender_sequence_number, k.sequence_number_persisted = inp["ssn"], inp["persisted"]
+        k.sequence_number_chunksize, k.sequence_number_chunksize_limit = inp["chunk"], inp["limit"]
+        out = []
+        for op in inp["ops"]:
+            try:
+                r = k.new_sequence_number() if op == "new" else ("unit" if k.post_seqnoincrease() is None else "not-none")
+            except Crash: out.append(["exn:OtherError_13", None]); break
+            except Exception as e: out.append(["exn:" + type(e).__name__, None]); break
+            out.append([r, [k.sender_sequence_number, k.sequence_number_persisted, k.sequence_number_chunksize, k.sequence_number_chunksize_limit]])
+        return {"calls": out}
+
     def impl(self, stream, inp):
         import aiocoap, aiocoap.oscore as o
+        if stream == "kernels": return self.impl_kernels(inp)
         H.install()
         root = os.path.join(fw.BUILD, "C13-%d" % os.getpid()); os.makedirs(root, exist_ok=True)
         base = os.path.join(root, "ctx"); shutil.rmtree(base, ignore_errors=True); os.makedirs(base)
@@ -611,6 +663,11 @@ class C13(fw.Property):
         r = "RUnknown" if recv == "unknown" else ("(RWin None)" if recv is None else "(RWin (Some (%s, %s)))" % (gz(recv[0]), gz(recv[1])))
         return "(Some {| sf_next := %s; sf_recv := %s |})" % (gz(nxt), r)
     def model(self, stream, inp):
+        if stream == "kernels" and "rw" in inp: return "kwchanged %s %s" % (gbool(inp["rw"]), gbool(inp["fail"]))
+        if stream == "kernels":
+            t = inp["t"] if inp["t"] is not None else 2 ** 62
+            return "kscenario %s %s %s %s %s %s" % (gz(t), gz(inp["ssn"]), gz(inp["persisted"]), gz(inp["chunk"]), gz(inp["limit"]),
+                                                   glist(["KNew" if o == "new" else "KPost" for o in inp["ops"]]))
         evs = []
         for idx, ev in enumerate(inp["events"]):
             op = ev[0]
@@ -650,6 +707,16 @@ class C13(fw.Property):
         raise ValueError("unknown observation %r" % (x,))
     def decode(self, stream, inp, p):
         p = fw.plain(p)
+        if stream == "kernels" and "rw" in inp:
+            return {"rw": p["a"][0] if p["c"] == "Ok" else "exn:" + self.d_exn(p["a"][0])}
+        if stream == "kernels":
+            out = []
+            for r, st in p:
+                if r == "KUnit": v = "unit"
+                elif r["c"] == "KVal": v = r["a"][0]
+                else: v = "exn:" + self.d_exn(r["a"][0])
+                out.append([v, None if st == "None" else list(st["a"][0])])
+            return {"calls": out}
         t, (temps, lock, durable), proc = p
         trace = [[self.d_obs(o), self.d_seqfile(s), n] for (o, s, n) in t]
         tl = sorted([[self.d_seqfile(x["tmp_content"]), x["tmp_synced"]] for x in temps], key=fw.jdump)
@@ -663,11 +730,39 @@ class C13(fw.Property):
     def oracle(self, stream, inp, res):
         if "harness_exception" in res:
             return ("C13:crash:%s:%s" % (res["harness_exception"], res["where"]), "implementation raised %s (%s)" % (res["harness_exception"], res.get("text")))
+        if stream == "kernels": return self._kernel_oracle(inp, res)
         v = self._walk(inp, res)
         if v is not None: return v
         for a in res.get("fs_anomalies", []):
             kind = a.split(":")[0].split(" ")[0]
             return ("C13:fs:" + kind, a)
+        return None
+    def _kernel_oracle(self, inp, res):
+        """local statement on the two methods: the number returned is the counter before the call, below 2^40-1, and — when the
+        counter had not run past the persisted bound and chunk sizes are non-negative — below the bound persisted when it returns"""
+        if "rw" in inp:
+            if res["rw"] == "exn:OtherError_14":
+                return ("C13:kernel:store-before-flag-cleared", "_replay_window_changed called _store while replay_window_persisted was still set: the window, not \"unknown\", is written")
+            if res["rw"] is True: return ("C13:kernel:flag-not-cleared", "replay_window_persisted still set after _replay_window_changed")
+            if isinstance(res["rw"], str) and res["rw"] != "exn:OtherError_13": return ("C13:kernel:exception:" + res["rw"], "_replay_window_changed raised")
+            return None
+        prev = [inp["ssn"], inp["persisted"], inp["chunk"], inp["limit"]]
+        sane = inp["chunk"] >= 0 and inp["limit"] >= 0
+        for i, (op, (r, st)) in enumerate(zip(inp["ops"], res["calls"])):
+            if st is None:
+                if r not in ("exn:ContextUnavailable", "exn:AssertionError", "exn:OtherError_13"):
+                    return ("C13:kernel:exception:" + str(r), "call %d (%s) raised %s" % (i, op, r))
+                if r == "exn:ContextUnavailable" and not (op == "new" and prev[0] >= MAX_SEQNO):
+                    return ("C13:kernel:refused-early", "call %d refused at counter %d" % (i, prev[0]))
+                break
+            if op == "new":
+                if r != prev[0]: return ("C13:kernel:wrong-number", "call %d returned %r with counter %d" % (i, r, prev[0]))
+                if r >= MAX_SEQNO: return ("C13:kernel:exhaustion-not-refused", "call %d returned %d >= 2^40-1" % (i, r))
+                if st[0] != r + 1: return ("C13:kernel:counter-not-advanced", "call %d returned %d, counter now %d" % (i, r, st[0]))
+                if sane and prev[0] <= prev[1] and not r < st[1]:
+                    return ("C13:kernel:issued-beyond-persisted", "call %d returned %d while the persisted bound is %d" % (i, r, st[1]))
+            if sane and st[1] < prev[1]: return ("C13:kernel:bound-lowered", "call %d lowered the persisted bound %d -> %d" % (i, prev[1], st[1]))
+            prev = st
         return None
     def _walk(self, inp, res):
         size = inp.get("size", 32)
@@ -748,6 +843,11 @@ class C13(fw.Property):
         return n < i or bool((b >> (n - i)) & 1)
 
     def nontrivial(self, stream, inp, res):
+        if stream == "kernels" and "rw" in inp: return fw.jdump([stream, inp])
+        if stream == "kernels":
+            c = res.get("calls", [])
+            moved = any(st is not None and st[1] != inp["persisted"] for _, st in c)
+            return fw.jdump([stream, inp]) if moved or (c and c[-1][1] is None) else None
         tr = res.get("trace", [])
         lives = sum(1 for t in tr if isinstance(t[0], list) and t[0][0] == "loaded")
         acted = sum(1 for t in tr if isinstance(t[0], list) and t[0][0] in ("issued", "seq", "unprot"))
